@@ -674,4 +674,97 @@ theorem cif_rel (m : Int) (cif : Bool) (fuel : Nat) {s s' : St} (h : Rel p all a
       obtain ⟨c1, c2⟩ := cifEnd_rel (p := p) cif st.1 q2
       exact ⟨c1, c2, rfl⟩
 
+-- ---- what the relation says about the two logs -------------------------------------------------------------------------
+
+theorem segEvents_all_ws (d : Int) : ∀ (l : List Seg) (e : Ev), e ∈ segEvents d l → isWsEv e = true
+  | [], e, h => by simp [segEvents] at h
+  | .ws t :: r, e, h => by
+    simp only [segEvents, List.mem_append] at h
+    rcases h with h | h
+    · by_cases hd : d ≤ 0
+      · simp only [hd, if_true, List.mem_singleton] at h; rw [h]; rfl
+      · simp only [hd, if_false, List.not_mem_nil] at h
+    · exact segEvents_all_ws d r e h
+  | .comment t :: r, e, h => by
+    simp only [segEvents, List.mem_cons] at h
+    rcases h with h | h
+    · rw [h]; rfl
+    · exact segEvents_all_ws d r e h
+
+theorem segEvents_ws (d : Int) (l : List Seg) : (segEvents d l).filter isWsEv = segEvents d l :=
+  List.filter_eq_self.mpr (segEvents_all_ws d l)
+
+theorem segEvents_notWs (d : Int) (l : List Seg) : (segEvents d l).filter (fun e => !isWsEv e) = [] := by
+  have h := segEvents_ws d l
+  rw [List.filter_eq_nil_iff]
+  intro e he
+  have : e ∈ (segEvents d l).filter isWsEv := by rw [h]; exact he
+  simp [(List.mem_filter.mp this).2]
+
+/-- the callbacks other than whitespace callbacks agree (chronological order) -/
+theorem LogRel.struct {sc : List (Int × Tok × Tok)} {l l' : List Ev} (h : LogRel sc l l') :
+    l'.reverse.filter (fun e => !isWsEv e) = l.reverse.filter (fun e => !isWsEv e) := by
+  induction h with
+  | nil => rfl
+  | ev e he _ ih => simp [List.filter_append, ih]
+  | scan d t t' _ ih => simp [List.filter_append, ih, segEvents_notWs]
+
+/-- the whitespace callbacks of the first run: the layout in front of the scanned tokens, in order -/
+theorem LogRel.ws1 {sc : List (Int × Tok × Tok)} {l l' : List Ev} (h : LogRel sc l l') :
+    l.reverse.filter isWsEv = (sc.reverse.map (fun x => segEvents x.1 x.2.1.pre)).flatten := by
+  induction h with
+  | nil => rfl
+  | ev e he _ ih => simp [List.filter_append, ih, he]
+  | scan d t t' _ ih => simp [List.filter_append, ih, segEvents_ws]
+
+theorem LogRel.ws2 {sc : List (Int × Tok × Tok)} {l l' : List Ev} (h : LogRel sc l l') :
+    l'.reverse.filter isWsEv = (sc.reverse.map (fun x => segEvents x.1 x.2.2.pre)).flatten := by
+  induction h with
+  | nil => rfl
+  | ev e he _ ih => simp [List.filter_append, ih, he]
+  | scan d t t' _ ih => simp [List.filter_append, ih, segEvents_ws]
+
+theorem zipWith_prefix {α : Type} (f : Int → List Seg → List Ev) (g : α → Int) (tk : α → Tok) : ∀ (sc : List α) (rest : List Tok),
+    List.zipWith f (sc.map g) ((sc.map tk ++ rest).map (·.pre)) = sc.map (fun x => f (g x) (tk x).pre)
+  | [], rest => by simp
+  | x :: sc, rest => by
+    simp only [List.map_cons, List.cons_append, List.zipWith_cons_cons]
+    rw [zipWith_prefix f g tk sc rest]
+
+theorem Rel.init (p : Prog) {toks toks' : List Tok} (h : SkelL toks toks') : Rel p toks toks' (St.init toks) (St.init toks') :=
+  ⟨h, rfl, rfl, rfl, [], LogRel.nil, by simp [pend, St.init], by simp [pend, St.init], fun _ => ⟨by simp [St.init], by simp⟩⟩
+
+/-- **two layouts of one token sequence, whole parse**: same result, same stored CIF, same callbacks other than whitespace
+    callbacks; and there is ONE list of depths `marks` — one per token that next_token scanned, a prefix of the sequence — such that
+    the whitespace callbacks of either run are `segEvents mark pre` of its own tokens, in order: every comment, and every
+    whitespace run unless the token was scanned inside a skipped region (depth > 0); if the program never asks to skip, no depth is positive;
+    the tokens not scanned are those the final state still holds (all but the pending one) -/
+theorem cif_layout (p : Prog) (m : Int) (cif : Bool) (fuel : Nat) {toks toks' : List Tok} (h : SkelL toks toks') :
+    (parseCif p m cif fuel (St.init toks')).1 = (parseCif p m cif fuel (St.init toks)).1
+    ∧ (parseCif p m cif fuel (St.init toks')).2.2 = (parseCif p m cif fuel (St.init toks)).2.2
+    ∧ (parseCif p m cif fuel (St.init toks')).2.1.log.reverse.filter (fun e => !isWsEv e)
+        = (parseCif p m cif fuel (St.init toks)).2.1.log.reverse.filter (fun e => !isWsEv e)
+    ∧ ∃ marks : List Int,
+        marks.length + (pend (parseCif p m cif fuel (St.init toks)).2.1).length = toks.length
+        ∧ (parseCif p m cif fuel (St.init toks)).2.1.log.reverse.filter isWsEv
+            = (List.zipWith segEvents marks (toks.map (·.pre))).flatten
+        ∧ (parseCif p m cif fuel (St.init toks')).2.1.log.reverse.filter isWsEv
+            = (List.zipWith segEvents marks (toks'.map (·.pre))).flatten
+        ∧ (NoSkipP p → ∀ d ∈ marks, d ≤ 0) := by
+  obtain ⟨r1, r2, r3⟩ := cif_rel (p := p) m cif fuel (Rel.init p h)
+  obtain ⟨sc, g1, g2, g3, g4⟩ := r2.ghost
+  refine ⟨r1, r3, g1.struct, sc.reverse.map (·.1), ?_, ?_, ?_, ?_⟩
+  · have := congrArg List.length g2
+    simp only [List.length_append, List.length_map, List.length_reverse] at this ⊢
+    omega
+  · rw [g1.ws1]
+    conv => rhs; rw [g2]
+    exact (congrArg List.flatten (zipWith_prefix segEvents (fun x => x.1) (fun x => x.2.1) sc.reverse _)).symm
+  · rw [g1.ws2]
+    conv => rhs; rw [g3]
+    exact (congrArg List.flatten (zipWith_prefix segEvents (fun x => x.1) (fun x => x.2.2) sc.reverse _)).symm
+  · intro hp d hd
+    obtain ⟨x, hx, rfl⟩ := List.mem_map.mp hd
+    exact (g4 hp).2 x (List.mem_reverse.mp hx)
+
 end CifModel.Lemmas.ParseCB
